@@ -52,7 +52,7 @@ func (g *gen) Add(name string, typs []types.Type) (string, error) {
 		return "", fmt.Errorf("%s does not have two argument. Expected (error, func (a) (b, bool))", name)
 	}
 	errTyp := typs[0]
-	if !derive.IsError(errTyp) {
+	if !derive.ImplementsError(errTyp) {
 		return "", fmt.Errorf("First parameter should be of type error")
 	}
 	funcTyp := typs[1]
